@@ -1,4 +1,4 @@
-package checks
+package hist
 
 import (
 	"bytes"
